@@ -46,6 +46,24 @@ def o_C14(case, p):
     return None
 
 
+def q_C14(case, p):
+    """after validate(): the well-formed siblings are still there, in order and unchanged (compared with the validated baseline)"""
+    seen = case.setdefault("_seenq", {})
+    seen[p["fr"]["id"]] = p
+    if len(seen) < 2:
+        return None
+    a, b = seen["a"], seen["b"]
+    case["_seenq"] = {}
+    if b["fr"]["ast"] is None or a["fr"]["ast"] is None:
+        return None            # judged at the parse stage
+    good = [oracles.erase(m) for m in b["fr"]["ast"]["item"]["members"]]
+    got = [oracles.erase(m) for m in a["fr"]["ast"]["item"]["members"]]
+    if not oracles.subsequence(good, got):
+        return ("after validation the well-formed siblings are lost or changed: "
+                f"{[(m['name'], m.get('oneway')) for m in got]} vs {[(m['name'], m.get('oneway')) for m in good]}")
+    return None
+
+
 def known_C14(case, f, known):
     """a failure of the C14 oracle that belongs to the recorded class -> the KNOWN-FINDING text; anything else -> None"""
     ks = [k for k in known if k.get("check") == "oracle"]
@@ -123,7 +141,7 @@ PARSE_PROPS = {
              "well-formed items with 1-5 members; at every member position a garbage token string (1-9 tokens over the full vocabulary "
              "without ; { } and, in enums, without ,) followed by the terminator; the same document without it as baseline; a case counts "
              "when the garbage is not itself accepted as a member",
-             runs=[("parse", "P", ["corr_parse_shape"])], py_oracle=o_C14, known_recogniser=known_C14,
+             runs=[("parsev", "P", ["corr_parse_shape"])], py_oracle=o_C14, q_oracle=q_C14, known_recogniser=known_C14,
              trusted_base=TB_PARSE, assumptions=ASSUME_PARSE + ["KNOWN FINDING: in an enum body a malformed member that opens an annotation "
              "parenthesis without closing it absorbs its own terminating comma and the following elements (theorem C14_known); only that "
              "exact class is tolerated"], distribution=dist_parse),
